@@ -72,6 +72,8 @@ def run_check(prop, tier, *, lean_module, cases, execute, compare, oracle, class
     if time_budget and time.time() - t0 > time_budget:
       break
     diffs, fail, real, model = one(tag, case)
+    if diffs:
+      model_stats['cases_where_model_and_code_disagree'] += 1
     if fail:
       cls = classify(case, fail) if classify else None
       if cls is not None and cls in known_open:
